@@ -2,8 +2,10 @@ package checks
 
 import (
 	"fmt"
+	"go/ast"
 	"regexp"
 	"sort"
+	"strconv"
 	"strings"
 
 	"github.com/goplus/gogen/verif/internal/drive"
@@ -32,6 +34,86 @@ func classifyFlowDiag(msgs []string) (out []string, other []string) {
 	}
 	sort.Strings(out)
 	return
+}
+
+var rePosPrefix = regexp.MustCompile(`^[^:]+:(\d+):(\d+): `)
+
+type fnSpan struct{ l0, c0, l1, c1 int }
+type fnSpans []fnSpan
+
+// contains reports whether the innermost function containing (line, col) is one of the spans. Spans are innermost-first
+// decided by the caller: only functions with duplicated labels are listed, together with their nested literals as holes.
+func (s fnSpans) contains(line, col int) bool {
+	best := -1
+	for i, f := range allFnSpans {
+		if (line > f.l0 || line == f.l0 && col >= f.c0) && (line < f.l1 || line == f.l1 && col <= f.c1) {
+			if best < 0 || spanInside(f, allFnSpans[best]) {
+				best = i
+			}
+		}
+	}
+	if best < 0 {
+		return false
+	}
+	for _, d := range s {
+		if d == allFnSpans[best] {
+			return true
+		}
+	}
+	return false
+}
+
+func spanInside(a, b fnSpan) bool {
+	return (a.l0 > b.l0 || a.l0 == b.l0 && a.c0 >= b.c0) && (a.l1 < b.l1 || a.l1 == b.l1 && a.c1 <= b.c1)
+}
+
+// allFnSpans holds every function of the program under examination (one program per case, single goroutine).
+var allFnSpans []fnSpan
+
+func dupLabelFuncs(o *drive.Outcome) fnSpans {
+	allFnSpans = nil
+	var dups fnSpans
+	if o.Src == nil || len(o.Src.Files) == 0 {
+		return nil
+	}
+	fset := sharedUniverse().Fset
+	span := func(n ast.Node) fnSpan {
+		a, b := fset.Position(n.Pos()), fset.Position(n.End())
+		return fnSpan{a.Line, a.Column, b.Line, b.Column}
+	}
+	var visitFn func(node ast.Node, body *ast.BlockStmt)
+	visitFn = func(node ast.Node, body *ast.BlockStmt) {
+		if body == nil {
+			return
+		}
+		sp := span(node)
+		allFnSpans = append(allFnSpans, sp)
+		seen := map[string]int{}
+		ast.Inspect(body, func(n ast.Node) bool {
+			switch x := n.(type) {
+			case *ast.FuncLit:
+				visitFn(x, x.Body)
+				return false
+			case *ast.LabeledStmt:
+				seen[x.Label.Name]++
+			}
+			return true
+		})
+		for _, c := range seen {
+			if c > 1 {
+				dups = append(dups, sp)
+				break
+			}
+		}
+	}
+	for _, f := range o.Src.Files {
+		for _, d := range f.Decls {
+			if fd, ok := d.(*ast.FuncDecl); ok {
+				visitFn(fd, fd.Body)
+			}
+		}
+	}
+	return dups
 }
 
 func ref_IsUnused(m string) bool {
@@ -68,8 +150,16 @@ func c10Run(tier string, seed uint64, i int) []h.Result {
 		r.Verdict, r.Kind, r.Detail = h.Skip, "generator-parse-error", o.SrcParseErr
 		return []h.Result{r}
 	}
+	// functions (declarations and literals) that declare the same label twice: there the target of `break L` / `continue L`
+	// is the front end's choice, and with it whether the function can fall off its end
+	dupFn := dupLabelFuncs(o)
+	notAttributable := 0
 	var goMsgs []string
 	for _, e := range o.Src.AllErrs {
+		if strings.Contains(e.Msg, "missing return") && dupFn.contains(e.Fset.Position(e.Pos).Line, e.Fset.Position(e.Pos).Column) {
+			notAttributable++
+			continue
+		}
 		goMsgs = append(goMsgs, e.Msg)
 	}
 	want, other := classifyFlowDiag(goMsgs)
@@ -90,10 +180,27 @@ func c10Run(tier string, seed uint64, i int) []h.Result {
 	if o.Status == "rejected" && len(o.Handled) == 0 {
 		msgs = append(msgs, o.Msg)
 	}
+	if len(dupFn) > 0 {
+		var kept []string
+		for _, m := range msgs {
+			if strings.Contains(m, "missing return") {
+				if pm := rePosPrefix.FindStringSubmatch(m); pm != nil {
+					ln, _ := strconv.Atoi(pm[1])
+					col, _ := strconv.Atoi(pm[2])
+					if dupFn.contains(ln, col) {
+						continue
+					}
+				}
+			}
+			kept = append(kept, m)
+		}
+		msgs = kept
+	}
 	got, gother := classifyFlowDiag(msgs)
 	// With a duplicated label name, which declaration a jump refers to is the FRONT END's choice (it hands Label objects to
 	// Goto/Break/Continue), so "used" is not attributable to the builder for those names: unused-label entries of
-	// duplicated names are left out on both sides. Duplicate and missing-return diagnostics are compared in full.
+	// duplicated names are left out on both sides; so are missing-return diagnostics of a function (declaration or literal)
+	// that itself declares a label twice (whether it can fall off its end depends on which loop `break L` leaves).
 	dups := map[string]bool{}
 	for _, w := range append(append([]string{}, want...), got...) {
 		if strings.HasPrefix(w, "dup-label ") {
@@ -113,6 +220,7 @@ func c10Run(tier string, seed uint64, i int) []h.Result {
 	want, got = dropDupUnused(want), dropDupUnused(got)
 	r.NonTrivial = true
 	r.Count("bodies", 1)
+	r.Count("missing_return_in_function_with_duplicated_label_not_compared", int64(notAttributable))
 	r.Count("diagnostics_expected", int64(len(want)))
 	for _, w := range want {
 		r.Tag("diag:" + strings.Fields(w)[0])
